@@ -13,6 +13,7 @@ class Cfg:
         toks = ' '.join(line.split()[1:]).split(' ; ')
         c = toks[0].split()
         self.nrec, self.recs = int(c[0].rstrip('rfgxy')), int(c[1])      # suffix: how the reader is built (see d_reader.cc)
+        self.ctor = c[0][-1] if c[0][-1] in 'rfgxy' else ''
         self.fl = '' if c[2] == '-' else c[2]
         self.nshut = int(c[3].rstrip('tzu'))                            # suffix: the timeout Shutdown is called with
         self.acts = toks[1:]
@@ -214,13 +215,23 @@ def oracle(case, out, clauses=('c02', 'c03')):
     if out == 'bad-op':
         return ('harness-rejected-case', out)
     cfg, ev, summary = history(case.line, out)
-    m = re.fullmatch(r'done=(\d) reentrant=(\d+)', summary)
+    m = re.fullmatch(r'done=(\d) reentrant=(\d+)(?: cfg=(\d+)/(\d+))?', summary)
     if not m:
         return ('summary', summary)
     if 'c02' in clauses and m.group(1) != '1':
         return ('reader-forceflush-and-shutdown-terminate', summary)
     if 'c03' in clauses and m.group(2) != '0':
         return ('reader-export-never-reentered', summary)
+    if m.group(3) is None:
+        return ('summary', summary)
+    # every constructor / factory overload keeps the interval and timeout it was given (the harness asks for 1000 / 500 ms);
+    # options that are refused (x, y: interval 400 <= timeout 500) are replaced by a valid pair, never kept
+    iv, to = int(m.group(3)), int(m.group(4))
+    if cfg.ctor in ('x', 'y'):
+        if (iv, to) == (400, 500) or not to < iv:
+            return ('reader-refused-options-are-replaced-by-a-valid-configuration', summary)
+    elif (iv, to) != (1000, 500):
+        return ('reader-keeps-the-configured-interval-and-timeout', summary)
     exports = []   # (begin, end, covered)
     xfl = []
     skipped = False
